@@ -12,8 +12,9 @@ ALL_TE = ["te-parse#", "te-parse-order#", "te-imparse#", "te-print#", "te-error#
 PARSE_TE = ["te-parse#", "te-parse-order#", "te-imparse#", "te-built-tree#", "te-depth#"]
 DISPLAY_TE = ["te-built-tree#", "te-built-print#", "te-value-print#"]
 SERDE_TE = ALL_TE + ["te-de#", "te-ser#", "te-ser-pretty#"]
-ALL_T = ["t-parse#", "t-parse-order#", "t-reprint-sorted#", "t-built-tree#", "t-built-order#", "t-ser#", "t-value-display#", "t-ser-meaning#"]
-PO_T = ["t-parse#", "t-reprint-sorted#", "t-built-tree#", "t-ser-meaning#"]
+API_T = ["t-map-ops#", "t-into#"]
+ALL_T = ["t-parse#", "t-parse-order#", "t-reprint-sorted#", "t-built-tree#", "t-built-order#", "t-ser#", "t-value-display#", "t-ser-meaning#", "t-map-order#"] + API_T
+PO_T = ["t-parse#", "t-reprint-sorted#", "t-built-tree#", "t-ser-meaning#"] + API_T
 
 CONFIGS = {
     "te-default": (["te-parse", "te-display"], None, []),
@@ -29,10 +30,10 @@ CONFIGS = {
     "te-unbounded": (["te-parse", "te-display", "te-unbounded"], "te-default", ALL_TE),
     "t-default": (["t-parse", "t-display"], None, []),
     "t-po": (["t-parse", "t-display", "t-po"], "t-default", PO_T),
-    "t-parse-only": (["t-parse"], "t-default", ["t-parse#", "t-parse-order#", "t-built-tree#", "t-built-order#"]),
-    "t-display-only": (["t-display"], "t-default", ["t-built-tree#", "t-built-order#", "t-ser#", "t-value-display#"]),
-    "t-po-parse-only": (["t-parse", "t-po"], "t-po", ["t-parse#", "t-parse-order#", "t-built-tree#", "t-built-order#"]),
-    "t-po-display-only": (["t-display", "t-po"], "t-po", ["t-built-tree#", "t-built-order#", "t-ser#", "t-value-display#"]),
+    "t-parse-only": (["t-parse"], "t-default", ["t-parse#", "t-parse-order#", "t-built-tree#", "t-built-order#", "t-map-order#"] + API_T),
+    "t-display-only": (["t-display"], "t-default", ["t-built-tree#", "t-built-order#", "t-ser#", "t-value-display#", "t-map-order#"] + API_T),
+    "t-po-parse-only": (["t-parse", "t-po"], "t-po", ["t-parse#", "t-parse-order#", "t-built-tree#", "t-built-order#", "t-map-order#"] + API_T),
+    "t-po-display-only": (["t-display", "t-po"], "t-po", ["t-built-tree#", "t-built-order#", "t-ser#", "t-value-display#", "t-map-order#"] + API_T),
     "t-perf": (["t-parse", "t-display", "te-perf"], "t-default", ALL_T),
     "t-po-perf": (["t-parse", "t-display", "t-po", "te-perf"], "t-po", ALL_T),
 }
@@ -116,6 +117,21 @@ def run(run, binary, drv):
                     if lines.get(want + i) != v:
                         run.violations.append({"sig": f"map-order-differs:{name}", "detail": f"built value {i}: iteration order digest {v}, expected ({want[:-1]}) {lines.get(want + i)}", "workload": name, "index": int(i), "input": None, "phase": "compare"})
                         break
+    # the same exception for a table that went through a call sequence (removals, entry API, retain)
+    for name in outs:
+        if not name.startswith("t-"):
+            continue
+        want = "expected-map-insertion#" if "t-po" in CONFIGS[name][0] else "expected-map-sorted#"
+        lines = outs[name][1]
+        bad = 0
+        for k, v in lines.items():
+            if k.startswith("t-map-order#"):
+                i = k.split("#")[1]
+                compared += 1
+                if lines.get(want + i) != v:
+                    bad += 1
+                    if bad <= 2:
+                        run.violations.append({"sig": f"map-order-after-calls-differs:{'insertion' if 'insertion' in want else 'sorted'}", "detail": f"{name}: call sequence {i}: iteration order digest {v}, expected ({want[:-1]}) {lines.get(want + i)}", "workload": name, "index": int(i), "input": None, "phase": "compare"})
     if "te-unbounded" in outs:
         d = outs["te-unbounded"][1]
         if d.get("te-depth#200") != "true":
